@@ -2,7 +2,9 @@
    [parse o txt] is the model of Parser::new(txt, None, o).parse(); results: ROk records,
    RErr class, RPanic (the lexer's assert!(i < 4095)), RUnmod (outside the model), RFuel (the
    model's own recursion bound, shown unreachable).  [parse_nocap] is the same loader over the
-   lexer without its 4096-iteration cap. *)
+   lexer without its 4096-iteration cap, [parse_capped c] over the lexer with a cap of c.
+   Which of the two [parse] is, is the single definition [lex_cap] in Model.v; this file checks
+   unchanged under both settings ([Some cap]: finding F2 open; [None]: lexer repaired). *)
 From Coq Require Import String.
 From HV Require Import Lib.Base C20.Model C20.LexProofs C20.FieldProofs C20.LineProofs C20.ZoneProofs
   C20.WfProofs C20.ExampleProofs.
@@ -31,16 +33,37 @@ Print Assumptions C20_parse_total.
 
 (* ---- never a panic: refuted, and guarded ------------------------------------------- *)
 
+(* which loader [parse] is *)
+Theorem C20_model_variant :
+  parse = match lex_cap with Some c => parse_capped c | None => parse_nocap end.
+Proof. reflexivity. Qed.
+Print Assumptions C20_model_variant.
+
 (* The only effect of the cap is to turn a result into a panic. *)
 Theorem C20_cap_only_panics : forall o txt, parse o txt <> RPanic -> parse o txt = parse_nocap o txt.
 Proof. exact parse_cap_refines. Qed.
 Print Assumptions C20_cap_only_panics.
 
-(* "Text of any kind never panics" is false: a first token of 4093 letters trips the assert
-   (replayed on the real code by the harness family long-lexeme: finding F2). *)
-Theorem C20_no_panic_refuted : exists o txt, parse o txt = RPanic.
+(* "Text of any kind never panics" is false for the loader with the 4096-iteration assert: a
+   first token of 4093 letters trips it (replayed on the real code by the harness family
+   long-lexeme and corpus/C20/f2-*.zone: finding F2). *)
+Theorem C20_no_panic_refuted : exists o txt, parse_capped cap o txt = RPanic.
 Proof. exists None, (repeat 97 (N.to_nat 4093)). vm_compute. reflexivity. Qed.
 Print Assumptions C20_no_panic_refuted.
+
+(* The loader can panic exactly when it has the cap: with [lex_cap = Some cap] this is the
+   refutation above for [parse] itself; with [lex_cap = None] it says that no text panics. *)
+Theorem C20_panic_iff_capped : (exists o txt, parse o txt = RPanic) <-> lex_cap <> None.
+Proof.
+  split.
+  - intros (o & txt & H).
+    first [ unfold lex_cap; discriminate
+          | exfalso; exact (parse_with_panic_free next_token_nocap o txt next_token_nocap_total H) ].
+  - intros H.
+    first [ exists None, (repeat 97 (N.to_nat 4093)); vm_compute; reflexivity
+          | exfalso; apply H; reflexivity ].
+Qed.
+Print Assumptions C20_panic_iff_capped.
 
 (* Guarded form: texts of at most 2045 characters never panic, whatever they contain. *)
 Theorem C20_no_panic_guarded : forall o txt, (length txt <= 2045)%nat -> parse o txt <> RPanic.
